@@ -101,8 +101,15 @@ class odd_environ:
                     "LINES": ["24", "1"], "TERM": ["dumb", "", "xterm-256color"],
                     "NO_COLOR": ["1"], "LANG": ["C", "tr_TR.UTF-8"], "LC_ALL": ["C", "POSIX"],
                     "HOME": ["/nonexistent"], "PYTHONIOENCODING": ["ascii", "utf-8"],
-                    "DEBUG": ["1"], "VERBOSE": ["1"], "WIDTH": ["40"]}
-            names = rng.sample(sorted(pool), rng.randint(1, 3))
+                    "DEBUG": ["1"], "VERBOSE": ["1"], "WIDTH": ["40"],
+                    # (names under which wrappers and containers hand secrets and settings to
+                    # the manager scripts: no admin command is documented to read them)
+                    "PIN": ["1234", "", "12345678", "abc"], "HSM_PIN": ["1234"],
+                    "PASSWORD": ["1234"], "ANY_PIN": ["1"], "NETWORK": ["testnet"],
+                    "ROOT_AUTHORITY": ["00"], "LOGLEVEL": ["DEBUG"]}
+            names = rng.sample(sorted(pool), rng.randint(1, 4))
+            if rng.random() < 0.4 and "PIN" not in names:
+                names.append("PIN")
             if rng.random() < 0.6 and "COLUMNS" not in names:
                 names.append("COLUMNS")
             self.vars = {n: rng.choice(pool[n]) for n in names}
